@@ -213,18 +213,39 @@ def _check_artefacts(mode):
             K, n, fm = load_nmeas_estimate(P("n.json"))
             if K != 123.5 or n != 7 or (fm is None) != (frame_meas is None) or (fm is not None and not np.array_equal(fm, frame_meas)):
                 return False, f"nmeas estimate with frame_meas={frame_meas} came back as {(K, n, fm)}"
-        layers = CircuitLayers([[(0, 1), (2, 3)], [(1, 2)], []])
-        save_circuit_layers(layers, P("lay.json"))
-        with open(P("lay.json")) as fh:
-            bl = load_circuit_layers(fh)
-        if bl.layers != layers.layers or any(not isinstance(x, tuple) for l in bl.layers for x in l):
-            return False, f"circuit layers came back as {bl.layers}"
-        conn = CircuitConnectivity([(0, 1), (1, 2), (10, 11)])
-        save_circuit_connectivity(conn, P("con.json"))
-        with open(P("con.json")) as fh:
-            bc = load_circuit_connectivity(fh)
-        if bc.connectivity != conn.connectivity or any(not isinstance(x, tuple) for x in bc.connectivity):
-            return False, f"connectivity came back as {bc.connectivity}"
+        import itertools as it
+        groups = [(0, 1), (2, 3), (4, 5), (10, 11), (5, 0), (3, 2, 7)]
+        layer_sets = [[[(0, 1), (2, 3)], [(1, 2)], []], [], [[]]]
+        for perm in it.permutations(groups, 3):          # every order of the qubit groups inside a layer, every order of layers (file order is the data)
+            layer_sets.append([list(perm), list(perm[::-1])[:2], [perm[1]]])
+        try:
+            from orquestra.quantum.circuits.layouts import build_circuit_layers_and_connectivity
+            for topo in ("sycamore", "nearest-neighbor", "line", "star", "graph"):
+                try:
+                    _, lay = build_circuit_layers_and_connectivity(3, 4, topo) if topo == "sycamore" else build_circuit_layers_and_connectivity(4, topology=topo)
+                    layer_sets.append([list(l) for l in lay.layers])
+                except Exception:
+                    pass
+        except ImportError:
+            pass
+        for ls in layer_sets:
+            layers = CircuitLayers([list(l) for l in ls])
+            save_circuit_layers(layers, P("lay.json"))
+            with open(P("lay.json")) as fh:
+                bl = load_circuit_layers(fh)
+            bl2 = load_circuit_layers(P("lay.json"))
+            for b in (bl, bl2):
+                if b.layers != [list(l) for l in ls] or any(not isinstance(x, tuple) for l in b.layers for x in l):
+                    return False, f"circuit layers {ls} came back as {b.layers}"
+            if CircuitLayers.from_dict(layers.to_dict()).layers != [list(l) for l in ls]:
+                return False, f"CircuitLayers dict round trip changed {ls}"
+        for pairs in ([(0, 1), (1, 2), (10, 11)], [(10, 11), (1, 2), (0, 1)], [(5, 0), (4, 1), (3, 2)], [], [(2, 1)]):
+            conn = CircuitConnectivity(list(pairs))
+            save_circuit_connectivity(conn, P("con.json"))
+            with open(P("con.json")) as fh:
+                bc = load_circuit_connectivity(fh)
+            if bc.connectivity != conn.connectivity or load_circuit_connectivity(P("con.json")).connectivity != list(pairs) or any(not isinstance(x, tuple) for x in bc.connectivity):
+                return False, f"connectivity {pairs} came back as {bc.connectivity}"
         return True, "ok"
     finally:
         import shutil
